@@ -754,7 +754,21 @@ func assignedIdentsShallow(n ast.Node) []*ast.Ident {
 }
 
 func declaredIn(v *types.Var, fn *Fn) bool {
-	return v.Pos() >= fn.Body.Pos() && v.Pos() <= fn.Body.End() || (fn.Type != nil && v.Pos() >= fn.Type.Pos() && v.Pos() <= fn.Type.End())
+	if v.Pos() >= fn.Body.Pos() && v.Pos() <= fn.Body.End() || (fn.Type != nil && v.Pos() >= fn.Type.Pos() && v.Pos() <= fn.Type.End()) {
+		return true
+	}
+	if fn.Orig == nil {
+		return false
+	}
+	// a helper-transparent view: the variable may be declared in a spliced-in helper (other source positions)
+	found := false
+	ast.Inspect(fn.Body, func(n ast.Node) bool {
+		if id, ok := n.(*ast.Ident); ok && id.Pos() == v.Pos() && id.Name == v.Name() {
+			found = true
+		}
+		return !found
+	})
+	return found
 }
 
 func paramOf(p *Prog, fn *Fn, v *types.Var) bool {
